@@ -56,7 +56,8 @@ def main() -> int:
     mcworlds.ensure_modules()
     expect = {"FixOOS": ("MC_core_quick", dict(max_e=2, max_t=3), "Inv_C17"), "FixCB": ("MC_core_quick", dict(max_e=2, max_t=3), "Inv_C07"),
               "FixQueuePlug": ("MC_core_quick", dict(max_e=2, max_t=3), "Inv_C02"),
-              "FixFull": ("MC_station", dict(max_e=2, max_t=4, kinds=["Idle", "OutOfService", "Reposition", "DispatchStation", "ChargeStation"]), "Prop_C18")}
+              "FixFull": ("MC_station", dict(max_e=2, max_t=4, kinds=["Idle", "OutOfService", "Reposition", "DispatchStation", "ChargeStation"]), "Prop_C18"),
+              "FixFifo": ("MC_station", dict(max_e=2, max_t=4, kinds=["Idle", "OutOfService", "Reposition", "DispatchStation", "ChargeStation"]), "Prop_C18")}
     ok3 = True
     for flag, (mod, kw, prop) in expect.items():
         inv = [prop] if prop.startswith("Inv") else []
